@@ -32,10 +32,35 @@ def setup_repo():
         sys.modules['smt'] = m
 
 
+def _flat(obj):
+    """repr-like serialisation without recursion (deep tuples, e.g. binary numerals)"""
+    out, stack = [], [obj]
+    while stack:
+        x = stack.pop()
+        if isinstance(x, (tuple, list)):
+            out.append('(' if isinstance(x, tuple) else '[')
+            stack.append(None)
+            stack.extend(reversed(x))
+        elif x is None and False:
+            pass
+        elif isinstance(x, dict):
+            out.append('{')
+            stack.append(None)
+            for k in sorted(x, key=repr):
+                stack.append(x[k])
+                stack.append(k)
+        elif x is None:
+            out.append(')')
+        else:
+            out.append(repr(x))
+            out.append(',')
+    return ''.join(out)
+
+
 def h64(obj):
     """Stable 64-bit hash of a JSON-able / repr-able object."""
     if not isinstance(obj, (str, bytes)):
-        obj = repr(obj)
+        obj = _flat(obj)
     if isinstance(obj, str):
         obj = obj.encode('utf-8', 'backslashreplace')
     return int.from_bytes(hashlib.blake2b(obj, digest_size=8).digest(), 'big')
@@ -82,6 +107,14 @@ class Ctx:
         return {'counters': dict(self.counters), 'evaluations': self.evaluations,
                 'distinct': sorted(self.distinct), 'samples': self.samples,
                 'violations': self.violations, 'notes': self.notes}
+
+
+def freeze():
+    """after loading a big theory: move it to the permanent GC generation (full collections of
+    millions of long-lived objects otherwise cost seconds each)"""
+    import gc
+    gc.collect()
+    gc.freeze()
 
 
 def load_prop(pid):
@@ -268,6 +301,8 @@ def main_check(pid, tier, seed, replay=None):
     print(summary)
     interesting = {k: v for k, v in counters.items()}
     print('  counters: ' + ', '.join('%s=%s' % kv for kv in sorted(interesting.items())))
+    slow = sorted(results, key=lambda r: -r['wall'])[:3]
+    print('  slowest shards: ' + ', '.join('#%d %.0fs' % (r['idx'], r['wall']) for r in slow))
     for n in notes[:6]:
         print('  note: ' + n.replace('\n', '\n        '))
     for b in bad_shards[:3]:
